@@ -41,3 +41,8 @@ func VerifC03PushConnectionDelta(s *DiscoveryServer, con *Connection, req *model
 func VerifC03PushConnection(s *DiscoveryServer, con *Connection, req *model.PushRequest) error {
 	return s.pushConnection(con, &Event{pushRequest: req, done: func() {}})
 }
+
+// VerifC03PushDeltaXds exposes pushDeltaXds for one watched type of the connection (nothing is watched: no-op).
+func VerifC03PushDeltaXds(s *DiscoveryServer, con *Connection, typeURL string, req *model.PushRequest) error {
+	return s.pushDeltaXds(con, con.proxy.GetWatchedResource(typeURL), req)
+}
